@@ -31,7 +31,7 @@ ASSUMPTIONS = ['hook event timestamps come from CLOCK_MONOTONIC which is system-
                'process of the run is blocked (workers in Barrier.wait or idle, parent in AsyncResult.get) while the '
                'event log does not move; a watchdog firing without certificate is inconclusive',
                'interleavings inside numpy or inside multiprocessing internals are not controlled']
-MIN_COUNTERS = {'blank_band_runs': 6, 'blank_band_runs_with_a_wholly_blank_stripe': 2, 'slow_stripe_runs': 2, 'interrupts_delivered': 2, 'schedule_cases_with_sliver_stripe': 2, 'runs_ok': 20, 'hook_events': 200, 'multi_stripe_runs': 10}
+MIN_COUNTERS = {'stripe_sweeps_with_non_square_box': 3, 'blank_band_runs': 6, 'blank_band_runs_with_a_wholly_blank_stripe': 2, 'slow_stripe_runs': 2, 'interrupts_delivered': 2, 'schedule_cases_with_sliver_stripe': 2, 'runs_ok': 20, 'hook_events': 200, 'multi_stripe_runs': 10}
 BATCHES_PER_JOB = 4
 KNOWN_EXIT = 'worker-killed-without-raising'
 
@@ -122,6 +122,13 @@ def cases(seed, tier):
         out.append({'kind': 'stripes', 'rows': int(rng.integers(120, 260)), 'cols': int(rng.integers(60, 140)),
                     'grid': int(rng.choice([4, 5, 8])), 'box': int(rng.choice([20, 24, 30, 40])),
                     'nslices': [1, 2, 3, 5], 'seed': [seed, 'str', i]})
+    # non-square grids and boxes (either axis the longer one): the margin a stripe reads beyond its own rows must be that of the
+    # box's ROW extent
+    for i in range(4 if tier == 'quick' else 24):
+        gy, gx = [(16, 4), (4, 16), (8, 4), (5, 10)][i % 4]
+        by, bx = [(64, 16), (16, 64), (48, 12), (20, 60)][i % 4]
+        out.append({'kind': 'stripes', 'rows': int(rng.integers(200, 280)), 'cols': int(rng.integers(80, 140)),
+                    'grid': [gy, gx], 'box': [by, bx], 'nslices': [1, 2, 3, 4], 'seed': [seed, 'strbox', i]})
     # ---- 5. fault enumeration: every stripe x every hook point x {raise, exit}
     for rows, g, k in ([(64, 16, 2), (96, 8, 3)] if tier == 'quick' else [(64, 16, 2), (96, 8, 3), (120, 8, 4)]):
         for mode in ('raise', 'exit'):
@@ -466,7 +473,11 @@ def _stripe_sweep(o, case, sc):
                                                  + rng.uniform(-0.02, 0.02) * xx)
     im = os.path.join(sc, 'im.fits')
     bh.write_fits(im, img.astype(np.float32))
-    specs = [{'k': i, 'image': im, 'shape': [rows, cols], 'grid': [g, g], 'box': [box, box], 'cores': max(n, 1),
+    gg = list(g) if isinstance(g, (list, tuple)) else [g, g]
+    bb = list(box) if isinstance(box, (list, tuple)) else [box, box]
+    if bb[0] != bb[1]:
+        o.count('stripe_sweeps_with_non_square_box')
+    specs = [{'k': i, 'image': im, 'shape': [rows, cols], 'grid': gg, 'box': bb, 'cores': max(n, 1),
               'nslice': n, 'save': os.path.join(sc, 'n%d' % n)} for i, n in enumerate(case['nslices'])]
     res = bh.run_specs(specs, sc)
     maps = {}
